@@ -321,13 +321,17 @@ class _TaskKernel:
         self.task = task
 
     def __call__(self, x1, x2, **kw):
-        return _bkron(x1 @ x2.mT, self.task)
+        return _ops().DenseLinearOperator(_bkron(x1 @ x2.mT, self.task))
+
+
+def _sym(t):
+    return t + t.mT
 
 
 def b_kernel_mt(n1=2, n2=3, d=2, p=2, q=2):
     def f(g, b):
         x1, x2 = g.ints(*b, n1, d), g.ints(*b, n2, d)
-        return _ops().KernelLinearOperator(x1, x2, covar_func=_TaskKernel(g.ints(p, q)), num_outputs_per_input=(p, q))
+        return _ops().KernelLinearOperator(x1, x2, covar_func=_TaskKernel(_sym(g.ints(p, p))), num_outputs_per_input=(p, p))
     return f
 
 
@@ -411,9 +415,9 @@ def nested_catalogue():
         ("BatchRepeat(Toeplitz)[mixed]", b_batchrepeat(b_toeplitz(4), rep_split_c), {}),
         ("BatchRepeat(Kron(Dense2,Dense2))[tail]", b_batchrepeat(b_kron(D2, D2), rep_split_b), {}),
         ("BatchRepeat(BlockDiag(Dense))[all]", b_batchrepeat(b_block(D2, 2), rep_split_a), {}),
-        ("Cat(Toeplitz,Diag;rows)", b_cat([T3, b_diag(3)], -2), {"cat": (-2, (3, 3))}),
-        ("Cat(Kron(Dense2,Dense2),Dense4x2;cols)", b_cat([b_kron(D2, D2), b_dense(4, 2)], -1), {"cat": (-1, (4, 2))}),
-        ("Cat(Cat(rows),Dense;rows)", b_cat([b_cat([b_dense(1, 3), b_dense(2, 3)], -2), b_dense(2, 3)], -2), {"cat": (-2, (3, 2))}),
+        ("CatND(Toeplitz,Diag;rows)", b_cat([T3, b_diag(3)], -2), {"cat": (-2, (3, 3))}),
+        ("CatND(Kron(Dense2,Dense2),Dense4x2;cols)", b_cat([b_kron(D2, D2), b_dense(4, 2)], -1), {"cat": (-1, (4, 2))}),
+        ("CatND(Cat(rows),Dense;rows)", b_cat([b_cat([b_dense(1, 3), b_dense(2, 3)], -2), b_dense(2, 3)], -2), {"cat": (-2, (3, 2))}),
         ("Interpolated(Toeplitz)", b_interp(b_toeplitz(4), 4, 3, 3), {}),
         ("Interpolated(Kron(Dense2,Dense2))", b_interp(b_kron(D2, D2), 4, 3, 5), {}),
         ("Masked(Toeplitz)", b_masked(b_toeplitz(4), [True, True, False, True], [False, True, True, True]), {}),
@@ -422,7 +426,7 @@ def nested_catalogue():
         ("AddedDiag(Toeplitz)", b_addeddiag(T3, 3), {}),
         ("AddedDiag(Root)", b_addeddiag(b_root(3, 2), 3), {}),
         ("Sum(BlockDiag(Dense),Dense)", b_sum(b_block(D2, 2), b_dense(4)), {}),
-        ("Sum(Cat(rows),Dense)", b_sum(b_cat([b_dense(2, 3), b_dense(1, 3)], -2), D3), {}),
+        ("Sum(Cat(rows),Dense)", b_sum(b_cat([b_dense(2, 3), b_dense(1, 3)], -2), D3), {"cat": (-2, (2, 1))}),
         ("BlockDiag(Diag)", b_block(b_diag(3), 2), {"block": ("diag", 2, 3)}),
         ("BlockDiag(Dense)[block_dim=0]", b_block(D3, 2, block_dim=0), {"block": ("diag", 2, 3), "needbatch": True}),
         ("Matmul(Masked(Dense),Dense)", b_matmul(b_masked(b_dense(4, 5), [True, False, True, True], [True, True, False, True, False]), b_dense(3, 2)), {}),
